@@ -695,6 +695,14 @@ def build():
         loops={1: LoopSpec([ac_fill_outer], index="_i", havoc=[hv_W]), 2: LoopSpec([ac_fill_mid], index="_b"), 3: LoopSpec([ac_fill_inner], index="_j", havoc=[hv_W])},
         search=lambda plan_, c: {"custom": "search_edit", "native_module": plan_.native_module, "op": "add_column"}))
 
+    # "save/reopen" leg: the tile / row-info rebuild on save (every row is stored exactly once, in its own tile, with its own
+    # offsets) is C07's contract; it is re-verified here because a table that has grown past one tile must reopen unchanged
+    from contracts import C07
+    p7 = C07.build()
+    plan.import_targets(p7, lambda c: c.qual in ("model:_NumbersModel.recalculate_table_data", "model:_NumbersModel.recalculate_row_info"))
+    for lem in p7.lemmas:
+        plan.lemmas.append(lem)
+
     plan.bounded.append(BoundedStandIn(
         "edit-histories", "c03_histories.py", ["--max-len", "2", "--random", "40", "--small"],
         thorough_args=["--max-len", "2", "--random", "400", "--random-len", "30"],
